@@ -365,3 +365,160 @@ Proof.
       repeat (constructor; [lia|]). constructor.
     + split; [vm_compute; tauto|]. split; [vm_compute; split; discriminate|]. reflexivity.
 Qed.
+
+(* ------------------------------------------------------------------------------------------------ *)
+(* audit follow-up: a state byte that is no AppState, the remaining views, literal link list          *)
+
+Lemma appstate_values_sound : forall s, zmem s appstate_values = true -> In s app_states.
+Proof.
+  intros s H. apply zmem_In in H. unfold appstate_values in H. unfold app_states. cbn [In] in *.
+  repeat (destruct H as [<-|H]; [tauto|]). contradiction.
+Qed.
+
+(* the `info` payload is well-formed except that one of the 18 state bytes -- at ANY position, also that of
+   a core at or beyond num_cores -- is no AppState: get_chip_info raises (ValueError), it does not return *)
+Theorem decode_info_bad_state : forall cs s,
+  length (cs_states cs) = 18%nat -> length (cs_ip cs) = 4%nat ->
+  In s (cs_states cs) -> ~ In s app_states ->
+  decode_info (encode_info cs) = OtherError.
+Proof.
+  intros cs s Hlen Hip Hin Hbad. unfold decode_info.
+  change (r_data (encode_info cs)) with
+    (cs_states cs ++ le_encode 2 (256 * fst (cs_eth cs) + snd (cs_eth cs)) ++ cs_ip cs).
+  rewrite unpack_info_data by assumption.
+  assert (Hsl : slice 0 ci_states_stop (cs_states cs ++ [le_decode (le_encode 2 (256 * fst (cs_eth cs) + snd (cs_eth cs)));
+                                                          le_decode (cs_ip cs)]) = cs_states cs).
+  { unfold slice, ci_states_stop. change (Z.to_nat (18 - 0)) with 18%nat. change (Z.to_nat 0) with 0%nat.
+    rewrite skipn_O. rewrite <- Hlen. rewrite firstn_app, Nat.sub_diag, firstn_all. cbn [firstn]. apply app_nil_r. }
+  rewrite Hsl.
+  assert (Hf : forallb (fun s0 => zmem s0 appstate_values) (cs_states cs) = false).
+  { destruct (forallb (fun s0 => zmem s0 appstate_values) (cs_states cs)) eqn:E; [|reflexivity].
+    rewrite forallb_forall in E. specialize (E s Hin). apply appstate_values_sound in E. contradiction. }
+  rewrite Hf. reflexivity.
+Qed.
+
+Lemma decode_info_total : forall r, (exists ci, decode_info r = Ok ci) \/ decode_info r = OtherError.
+Proof.
+  intros r. unfold decode_info. destruct (unpack_from_ints ci_data_format (r_data r)); [|right; reflexivity].
+  match goal with |- context [if ?b then _ else _] => destruct b end; [left; eauto|right; reflexivity].
+Qed.
+
+Lemma probe_chips_error : forall info l c e r,
+  In (c, e) l -> e <> NO_ROUTE -> info c = Some r -> decode_info r = OtherError ->
+  probe_chips info l = OtherError.
+Proof.
+  intros info. induction l as [|[c' e'] l IH]; intros c e r Hin Hne Hi Hd; [contradiction|].
+  cbn [probe_chips]. change P2PTableEntry_none with NO_ROUTE. destruct Hin as [Heq|Hin].
+  - inversion Heq; subst. apply Z.eqb_neq in Hne. rewrite Hne, Hi, Hd. reflexivity.
+  - specialize (IH c e r Hin Hne Hi Hd). destruct (e' =? NO_ROUTE); [assumption|].
+    destruct (info c') as [r'|]; [|assumption].
+    destruct (decode_info_total r') as [[ci Hok]|Herr]; [rewrite Hok; cbn [bind]; rewrite IH; reflexivity|].
+    rewrite Herr. reflexivity.
+Qed.
+
+(* ... and that aborts the whole get_system_info: one chip with a junk state byte (even in the slot of a core it
+   does not have) and no description at all is returned *)
+Theorem system_info_bad_state : forall info tbl c e r,
+  In (c, e) tbl -> e <> NO_ROUTE -> info c = Some r -> decode_info r = OtherError ->
+  system_info_of_table info tbl = OtherError.
+Proof.
+  intros info tbl c e r Hin Hne Hi Hd. unfold system_info_of_table.
+  rewrite (probe_chips_error info tbl c e r Hin Hne Hi Hd).
+  destruct (zmax_list _); [|reflexivity]. destruct (zmax_list _); reflexivity.
+Qed.
+
+Theorem ctl_history_independent' : forall L sv ci calls st,
+  decode_sver sv = Ok ci ->
+  ctl_run L st sv calls = map (fun c => system_info_L L (fst c) (snd c)) calls.
+Proof.
+  intros L sv ci calls st Hsv. apply (ctl_history_independent L sv ci calls st Hsv).
+  destruct st; [right; eauto|left; reflexivity].
+Qed.
+
+Theorem build_machine_exact_lit : forall si, si_wf si ->
+  let m := build_machine si in
+  pm_width m = si_width si /\ pm_height m = si_height si /\
+  (forall c, pm_has_chip m c = si_has si c) /\
+  (forall c ci, si_get si c = Some ci ->
+     pm_get m c = Ok (ci_cores ci, ci_free_sdram ci, ci_free_sram ci)) /\
+  (forall c, si_has si c = false -> pm_get m c = OtherError) /\
+  (forall c l, In l [0; 1; 2; 3; 4; 5] ->
+     (pm_has_link m c l = true <-> exists ci, si_get si c = Some ci /\ In l (ci_links ci))) /\
+  (forall c, In c (pm_dead_chips m) <-> (in_bounds (si_width si) (si_height si) c /\ si_has si c = false)) /\
+  (forall c l, In (c, l) (pm_dead_links m) <->
+     exists ci, si_get si c = Some ci /\ In l [0; 1; 2; 3; 4; 5] /\ ~ In l (ci_links ci)).
+Proof. intros si Hwf. rewrite <- links_values_eq. exact (build_machine_exact si Hwf). Qed.
+
+Theorem num_working_cores_any_layout : forall L rd v,
+  field_holds rd (l_sv_base L) (l_num_cpus L) v -> num_working_cores_L L rd = Ok v.
+Proof. intros. unfold num_working_cores_L, read_sv_int_L. apply read_int_field_any. assumption. Qed.
+
+Theorem si_cores_exact : forall si c p s, NoDup (map fst (si_chips si)) ->
+  (In (c, p, s) (si_cores si) <->
+   exists ci, si_get si c = Some ci /\ 0 <= p /\ nth_error (ci_states ci) (Z.to_nat p) = Some s).
+Proof.
+  intros si c p s Hnd. unfold si_cores. rewrite in_flat_map. split.
+  - intros ([c' ci] & Hin & H). cbn [fst snd] in H. apply in_map_iff in H. destruct H as ([p' s'] & Heq & He).
+    cbn [fst snd] in Heq. inversion Heq; subst. apply In_enumerate in He. exists ci.
+    split; [apply In_cassoc; assumption|assumption].
+  - intros (ci & Hg & Hp & Hn). exists (c, ci). split; [apply cassoc_In; assumption|]. cbn [fst snd].
+    apply in_map_iff. exists (p, s). split; [reflexivity|]. apply In_enumerate. auto.
+Qed.
+
+Theorem si_ethernet_exact : forall si c ip, NoDup (map fst (si_chips si)) ->
+  (In (c, ip) (si_ethernet si) <-> exists ci, si_get si c = Some ci /\ ci_eth_up ci = true /\ ip = ci_ip ci).
+Proof.
+  intros si c ip Hnd. unfold si_ethernet. rewrite in_flat_map. split.
+  - intros ([c' ci] & Hin & H). cbn [fst snd] in H. destruct (ci_eth_up ci) eqn:E; [|contradiction].
+    destruct H as [Heq|[]]. inversion Heq; subst. exists ci. split; [apply In_cassoc; assumption|auto].
+  - intros (ci & Hg & He & ->). exists (c, ci). split; [apply cassoc_In; assumption|]. cbn [fst snd].
+    rewrite He. left. reflexivity.
+Qed.
+
+(* (x, y, p, state) in system_info: true iff the chip is described, p is one of its num_cores cores and in that
+   state; IndexError when num_cores exceeds the number of states held (a 5-bit count above 18) *)
+Theorem si_has_core_state_exact : forall si c p s,
+  (si_get si c = None -> si_has_core_state si c p s = Ok false) /\
+  (forall ci, si_get si c = Some ci -> ~ (0 <= p < ci_cores ci) -> si_has_core_state si c p s = Ok false) /\
+  (forall ci s', si_get si c = Some ci -> 0 <= p < ci_cores ci -> nth_error (ci_states ci) (Z.to_nat p) = Some s' ->
+     si_has_core_state si c p s = Ok (s' =? s)) /\
+  (forall ci, si_get si c = Some ci -> 0 <= p < ci_cores ci -> Z.of_nat (length (ci_states ci)) <= p ->
+     si_has_core_state si c p s = OtherError).
+Proof.
+  intros si c p s. unfold si_has_core_state. split; [intros ->; reflexivity|]. split; [|split].
+  - intros ci -> Hn. destruct ((0 <=? p) && (p <? ci_cores ci)) eqn:E; [|reflexivity].
+    apply andb_true_iff in E. destruct E as [E1 E2]. apply Z.leb_le in E1. apply Z.ltb_lt in E2. lia.
+  - intros ci s' -> Hp Hn. replace ((0 <=? p) && (p <? ci_cores ci)) with true; [rewrite Hn; reflexivity|].
+    symmetry. apply andb_true_iff. split; [apply Z.leb_le|apply Z.ltb_lt]; lia.
+  - intros ci -> Hp Hl. replace ((0 <=? p) && (p <? ci_cores ci)) with true.
+    + assert (Hn : nth_error (ci_states ci) (Z.to_nat p) = None) by (apply nth_error_None; lia). rewrite Hn. reflexivity.
+    + symmetry. apply andb_true_iff. split; [apply Z.leb_le|apply Z.ltb_lt]; lia.
+Qed.
+
+(* examples: a chip reporting 31 cores (5-bit count at full width); a junk byte in the slot of a core the chip
+   does not have; a 17-core and an 18-core chip where core 17 is busy on the latter only *)
+Definition ex_cs31 : chip_state :=
+  mkCS 31 [7; 15; 15; 15; 15; 15; 15; 15; 15; 15; 15; 15; 15; 15; 15; 15; 15; 15] 63 1 2 0 false [0; 0; 0; 0] (0, 0).
+Lemma ex_cs31_valid : cs_valid ex_cs31 /\ option_map (fun ci => (ci_cores ci, length (ci_states ci)))
+                                                      (okopt (decode_info (encode_info ex_cs31))) = Some (31, 18%nat).
+Proof.
+  split; [|vm_compute; reflexivity].
+  unfold cs_valid, ex_cs31, is_byte. cbn [cs_cores cs_states cs_linkmask cs_rtr cs_ip cs_eth fst snd].
+  repeat split; try lia; try reflexivity.
+  - repeat (apply Forall_cons; [unfold app_states; cbn [In]; lia|]). apply Forall_nil.
+  - repeat (apply Forall_cons; [lia|]). apply Forall_nil.
+Qed.
+
+Definition ex_cs_junk : chip_state :=
+  mkCS 17 [7; 15; 15; 15; 15; 15; 15; 15; 15; 15; 15; 15; 15; 15; 15; 15; 15; 99] 63 1 2 0 false [0; 0; 0; 0] (0, 0).
+Lemma ex_cs_junk_raises : decode_info (encode_info ex_cs_junk) = OtherError.
+Proof.
+  apply (decode_info_bad_state ex_cs_junk 99); [reflexivity|reflexivity|cbn; tauto|].
+  unfold app_states. cbn [In]. lia.
+Qed.
+
+Definition ex_si2 : sysinfo :=
+  mkSI 2 1 [((0, 0), ex_ci [7; 15; 15; 15; 15; 15; 15; 15; 15; 15; 15; 15; 15; 15; 15; 15; 15; 7] 100);
+            ((1, 0), ex_ci [7; 15; 15; 15; 15; 15; 15; 15; 15; 15; 15; 15; 15; 15; 15; 15; 15] 100)].
+Lemma ex_si2_constraints : build_core_constraints ex_si2 = [((0, 1), None); ((17, 18), Some (0, 0))].
+Proof. vm_compute. reflexivity. Qed.
